@@ -990,6 +990,7 @@ func (c *compiler) compile(tok *token) []instruction {
 		var idx int
 		setStruct := codeGlobalStruct
 		getStruct := codeGlobalGet
+		local := reg(0) // 1: declared in a function body; the declaration replaces what an earlier execution (or an earlier version of the body) left
 
 		if c.isLocal() {
 			// setStruct = codeLocalSet
@@ -998,6 +999,7 @@ func (c *compiler) compile(tok *token) []instruction {
 			key = c.FuncName + "." + key
 			idx = c.Globals.Index(key)
 			c.localTypes[key] = true
+			local = 1
 		} else {
 			key = c.expPrefix(key)
 			idx = c.Globals.Index(key)
@@ -1008,7 +1010,7 @@ func (c *compiler) compile(tok *token) []instruction {
 		// }
 		if ts == "interface" {
 			res = append(res, instruction{Code: codeStruct, A: 0})
-			res = append(res, instruction{Code: setStruct, A: reg(idx)})
+			res = append(res, instruction{Code: setStruct, A: reg(idx), B: local})
 			for i := 0; i < len(tok.Tokens[typeStruct].Tokens); i += 3 {
 				res = append(res, instruction{Code: codeZero, A: reg(TypeFunc)})
 				res = append(res, instruction{Code: getStruct, A: reg(idx)})
@@ -1028,7 +1030,7 @@ func (c *compiler) compile(tok *token) []instruction {
 				res = append(res, instruction{Code: codeZero, A: reg(typeFromToken(c, t))})
 			}
 			res = append(res, instruction{Code: codeStruct, A: reg(len(tok.Tokens[typeStruct].Tokens))})
-			res = append(res, instruction{Code: setStruct, A: reg(idx)})
+			res = append(res, instruction{Code: setStruct, A: reg(idx), B: local})
 			break
 		}
 		typ := typeFromToken(c, tok.Tokens[typeStruct])
